@@ -417,6 +417,79 @@ func c04Configs(thorough bool) []c04Config {
 
 var devKinds = []string{"4yz", "5yz", "drop"}
 
+type c04ConcCase struct {
+	Rep        int  `json:"rep"`
+	G          int  `json:"goroutines"`
+	Concurrent bool `json:"concurrent_send_calls"`
+}
+
+func runC04Concurrent(r *ev.Run, c c04ConcCase) {
+	rng := r.Rng("c04conc", c.Rep)
+	var jmu sync.Mutex
+	farm := &refsmtp.Farm{NewConfig: func(int) *refsmtp.Config {
+		return &refsmtp.Config{AllowUTF8: true, Delay: func(string) time.Duration {
+			jmu.Lock()
+			defer jmu.Unlock()
+			return time.Duration(rng.Intn(300)) * time.Microsecond
+		}, Decide: func(st refsmtp.Step) refsmtp.Action {
+			if st.Verb == "RCPT" && strings.Contains(st.Line, "refused") {
+				return refsmtp.Action{Kind: refsmtp.Reply, Code: 550, Text: "5.1.1 no such user"}
+			}
+			return refsmtp.Action{}
+		}}
+	}}
+	defer farm.Shutdown()
+	cl, err := mail.NewClient(netHost, mail.WithDialContextFunc(farm.Dial), mail.WithTimeout(defaultNetTimeout), mail.WithHELO("client.verif.example"), mail.WithTLSPolicy(mail.NoTLS))
+	if err != nil {
+		r.HarnessError("C04 concurrent NewClient: " + err.Error())
+		return
+	}
+	ctx, cancel := context.WithTimeout(context.Background(), 20*time.Second)
+	defer cancel()
+	if err := cl.DialWithContext(ctx); err != nil {
+		r.HarnessError("C04 concurrent dial: " + err.Error())
+		return
+	}
+	var wg sync.WaitGroup
+	start := make(chan struct{})
+	for g := 0; g < c.G; g++ {
+		var ms []*mail.Msg
+		for k := 0; k < 2; k++ {
+			rc := []string{fmt.Sprintf("r%d.%d@rcpt.example", g, k), fmt.Sprintf("second%d.%d@rcpt.example", g, k)}
+			if (g+k)%2 == 0 {
+				rc[1] = fmt.Sprintf("refused%d.%d@rcpt.example", g, k)
+			}
+			m, _ := simpleMsg(fmt.Sprintf("c04c-%d-%d-%d", c.Rep, g, k), fmt.Sprintf("m%d.%d@sender.example", g, k), rc, "quoted-printable", strings.Repeat("line of a concurrent message\r\n", 20))
+			ms = append(ms, m)
+		}
+		wg.Add(1)
+		go func() {
+			defer wg.Done()
+			<-start
+			_ = cl.Send(ms...)
+		}()
+	}
+	close(start)
+	hung, _ := withWatchdog(60*time.Second, wg.Wait, func() { farm.Shutdown() })
+	if hung {
+		r.Inconclusive("C04 concurrent: Send calls did not return within 60 s")
+		return
+	}
+	_ = cl.Close()
+	farm.Shutdown()
+	sess, _ := farm.Snapshot()
+	r.Count("concurrent_send_batches", 1)
+	for si, s := range sess {
+		cmds, _, pv := s.Snapshot()
+		r.Count("commands_observed", int64(len(cmds)))
+		for _, v := range pv {
+			code, _, _ := strings.Cut(v, ":")
+			r.Violate(ev.Violation{Key: "sequence:" + code + ":concurrent-send-calls", What: fmt.Sprintf("%d goroutines call Send on one connection: the reference automaton on connection %d reports %s", c.G, si, v), Case: c, Observed: s.Transcript()})
+		}
+	}
+	r.Eval(fmt.Sprintf("concurrent|%d|%d", c.Rep, c.G), true)
+}
+
 func runC04(r *ev.Run, rep *ev.ReplayDoc) ev.Summary {
 	sum := ev.Summary{
 		Rule: "execution-tree enumeration: for each client/server configuration the reference server deviates ({4yz,5yz,drop}) at up to MaxDev command positions; every distinct execution is visited once (a script is extended only at positions after its last deviation). non-trivial = at least one deviation; distinct by (configuration, script, transcript)",
@@ -428,6 +501,11 @@ func runC04(r *ev.Run, rep *ev.ReplayDoc) ev.Summary {
 		Exhaustive: true,
 	}
 	if rep != nil {
+		var cc c04ConcCase
+		if json.Unmarshal(rep.Case, &cc) == nil && cc.Concurrent {
+			runC04Concurrent(r, cc)
+			return sum
+		}
 		var c c04Case
 		if err := json.Unmarshal(rep.Case, &c); err != nil {
 			r.HarnessError("bad replay case: " + err.Error())
@@ -487,6 +565,11 @@ func runC04(r *ev.Run, rep *ev.ReplayDoc) ev.Summary {
 		level = next
 	}
 	sum.Extra = map[string]any{"configurations": len(cfgs), "tree_depth": depth - 1}
+	// the same automaton over a connection that several goroutines send on at once (one refused recipient per batch, so
+	// that RSETs occur): whatever the scheduling, the command stream of the connection has to stay one legal dialogue
+	for rep := 0; rep < r.Pick(6, 40); rep++ {
+		runC04Concurrent(r, c04ConcCase{Rep: rep, G: []int{2, 4, 8}[rep%3], Concurrent: true})
+	}
 	r.CollectRaceLogs()
 	return sum
 }
